@@ -22,6 +22,27 @@ theorem sorted_sites_have_sort :
     (mapSites.filter (fun s => s.2.2.2.2 == SiteClass.sortedAfter)).all (fun s => s.2.2.2.1) = true := by
   decide
 
+/-- every type of package object that implements object.Object is in the reviewed inventory,
+    with the reviewed answers to: does it have a `String()` method; do the fmt calls inside its
+    `Inspect()` / `String()` have an operand that could print an address.  A new object type,
+    a removed `String()`, a `%p`, or a pointer/channel/func/interface operand added to any
+    `Inspect()`/`String()` breaks this lemma. -/
+theorem object_types_reviewed : Risor.Generated.C05.objectTypes = objTypes := by
+  decide
+
+/-- the inventory the rendering theorems quantify over (`Kind`) names exactly these types -/
+theorem kinds_are_the_object_types : allKinds.map Kind.goName = objTypes.map (·.1) := by
+  decide
+
+/-- `object.PrintableValue` still dispatches primitives → Go value, time → RFC3339,
+    Stringer → `String()`, everything else → `Inspect()` (the model's `RObj.printable`) -/
+theorem printable_dispatch_reviewed : Risor.Generated.C05.printableDispatch = printableCases := by
+  decide
+
+/-- the functions that hand script values to a fmt verb, and through what -/
+theorem format_sites_reviewed : Risor.Generated.C05.formatSites = formatSitesReviewed := by
+  decide
+
 /-- the packages the extractor walked are the property's scope -/
 theorem scope_is_complete :
     Risor.Generated.C05.scope =
